@@ -33,6 +33,8 @@ def _canon(seqs):
 
 
 def run(c):
+    import r9
+    c.r9("C10")
     F = c.F
     S = r7.Seqs(F)
     tys = r7.types_with_both(F)
